@@ -17,7 +17,7 @@
    checks exactly this hypothesis on the implementation).  c13_reauthorize is likewise covered by
    the correspondence and the implementation-level oracle only. *)
 From Coq Require Import String.
-From Cedar Require Import Authz PE PEProofs.
+From Cedar Require Import Authz PE PEProofs PESound.
 Open Scope string_scope.
 
 (* a definite partial decision is the decision for every completion *)
@@ -67,6 +67,32 @@ Theorem c13_trivially_false_partial :
                  exists p, In p ps /\ pid p = i /\ evalp p = Ok false.
 Proof. exact false_sound. Qed.
 Print Assumptions c13_trivially_false_partial.
+
+
+(* ---- soundness of the partial evaluator itself ----
+   sound_pres sg sl q es p e  unfolds to (Print below):
+     p = PV v   ->  eval sl q es (subst sg e) = Ok v
+     p = PR r   ->  agree (eval sl q es (subst sg r)) (eval sl q es (subst sg e))  /\  wt_expr sg r = true
+                    (agree: equal values, or BOTH errors — the error class may differ)
+     p = PErr _ ->  exists x, eval sl q es (subst sg e) = Err x
+     p = POut   ->  True      (outside the model: an extension VALUE had to be turned into an expression)
+   Hypotheses: sg extends the mapper mu; (q, es) is a sg-completion of (pq, pes): every request
+   variable's partial value is sound (second hypothesis) and every stored entity has the same
+   tags/ancestors and attribute-wise completed attributes (store_complete); every unknown of e is
+   mapped by sg to a value of its declared type (wt_expr).
+   _partial: covers the constructs of the VISIBLE predicate in_fragment (Print below). *)
+Theorem c13_peval_sound_partial :
+  forall (sg mu : mapper) (sl : slotenv) (pq : prequest) (pes : pentities) (q : request) (es : entities),
+    (forall (n : str) (v : value), mu n = Some v -> sg n = Some v) ->
+    (forall v : var, sound_pres sg sl q es (peval_var pq v) (Var v)) ->
+    store_complete sg sl pes q es ->
+    forall e : expr,
+      in_fragment e = true -> wt_expr sg e = true ->
+      sound_pres sg sl q es (peval mu sl pq pes e) e.
+Proof. exact peval_sound_fragment. Qed.
+Print Assumptions c13_peval_sound_partial.
+Print in_fragment.
+Print sound_res.
 
 (* ---- non-vacuity: a concrete partial request with an unknown principal ---- *)
 Definition ex_user : etype := [s2str "User"].
@@ -118,3 +144,10 @@ Example c13_ex_definite :
   pdecision (pitems (is_authorized_partial [nth 0 ex_ps (ex_tpl "x" Permit T); nth 2 ex_ps (ex_tpl "x" Permit T)] ex_pq []))
   = Some Allow.
 Proof. vm_compute. reflexivity. Qed.
+
+(* the hypotheses of c13_peval_sound_partial hold for the example request under both completions *)
+Example c13_ex_completion :
+  forall flag v, sound_pres (ex_sigma flag) [] (ex_q flag) [] (peval_var ex_pq v) (Var v).
+Proof. intros [|] [| | |]; vm_compute; auto. Qed.
+Example c13_ex_store : forall flag, store_complete (ex_sigma flag) [] [] (ex_q flag) [].
+Proof. intros flag u. reflexivity. Qed.
